@@ -652,6 +652,27 @@ def extra_c15_bounded(prop, tier, seed):
     return res
 
 
+def extra_c15_spans(prop, tier, seed):
+    """Bounded stand-in (labelled, never counted) for the accepted-document half of C15: every span reachable
+    through Rule/Type/Type1/Type2/Group/GroupChoice/GroupEntry/Identifier of every accepted document
+    `a = <= n tokens out of 25>` (+3 tails) is inside the input on character boundaries, carries the line of its
+    start, lies inside its parent, siblings are ordered; identifier spans cover exactly their text; rule spans
+    start at the name."""
+    n = '4' if tier == 'thorough' else '3'
+    out, err = _replay(['u3b', 'find', n], timeout=3000)
+    if out is None:
+        raise engine.Undecided('replay-failed', err)
+    res = {'violations': [], 'bounded': [{'check': 'AST spans of accepted documents (real parser)', 'bound': '%s tokens out of 25, 3 tails' % n,
+                                          'documents': out.get('tried'), 'found': out.get('found')}]}
+    if out.get('found'):
+        res['violations'].append({
+            'unit': 'U3b', 'label': 'ast-spans:consistent', 'fn': 'pest_bridge (pest_span_to_ast_span and the convert_* functions)',
+            'message': 'an AST span of an accepted document is inconsistent', 'clause': [], 'engine': 'replay', 'verifier_output': json.dumps(out),
+            'fixed_witness': {'found': True, 'witness': out['witness'], 'real': out.get('real'),
+                              'replay_args': ['u3b', 'replay', json.dumps(out['witness'])]}})
+    return res
+
+
 PROPS = {
     'C12': {
         'extra': [extra_c12_bounded],
@@ -777,7 +798,7 @@ PROPS = {
     },
     'C15': {
         'vx': ['U3'],
-        'extra': [extra_c15_bounded, kani.part([
+        'extra': [extra_c15_bounded, extra_c15_spans, kani.part([
             {'name': 'pest_bridge::verif_kani::ascii_class_specs_match_core', 'kind': 'complete',
              'label': 'core:ascii-class-specs', 'functions': ['u8::is_ascii_whitespace', 'u8::is_ascii_alphanumeric'], 'file': 'core',
              'clause': 'for every byte: is_ascii_whitespace / is_ascii_alphanumeric equal the spec functions the Verus unit assumes'}], 'C15')],
@@ -787,7 +808,7 @@ PROPS = {
                  'the reported index, for every input text and every boundary index. NOT covered: line/column '
                  'recomputation in convert_pest_error, and every AST span of accepted documents (pest pair spans).',
         'technique': 'Verus function contracts + loop invariants on the real functions (mechanical extraction), witness replay on the real code',
-        'level_text': 'Deductive proof (Verus/Z3, no bound on input length or loop iterations) that the three real functions computing the highlighted range of a parse error return a range inside the input, non-inverted, with both ends on UTF-8 character boundaries and starting at or before the reported index; termination and absence of index/overflow panics included. This is the rejected-document half of C15; line/column recomputation in convert_pest_error is iterator code outside Verus and is covered only by a bounded stand-in on the real parser (labelled, not counted); the AST-span half is produced by pest and is not decided.',
+        'level_text': 'Deductive proof (Verus/Z3, no bound on input length or loop iterations) that the three real functions computing the highlighted range of a parse error return a range inside the input, non-inverted, with both ends on UTF-8 character boundaries and starting at or before the reported index; termination and absence of index/overflow panics included. This is the rejected-document half of C15; line/column recomputation in convert_pest_error is iterator code outside Verus and is covered only by a bounded stand-in on the real parser (labelled, not counted); the AST-span half is produced by pest pair spans inside the convert_* functions (no contract possible) and is covered only by a bounded span walk over small accepted documents (labelled, not counted).',
         'level_note': 'Trusted: Verus+Z3; vstd spec of str::as_bytes and its proved lemma encode_utf8_valid_utf8; the two assumed contracts for u8::is_ascii_whitespace/is_ascii_alphanumeric are cross-checked for all 256 bytes by a complete Kani harness; the no-stray-continuation-byte fact is PROVED from the valid_utf8 definition of vstd (no axiom left in this unit). Unverified: convert_pest_error (caller; supplies index on a char boundary), line/column recomputation, all AST spans.',
         'design_ref': 'DESIGN.md 4 U3',
         'assumptions': ['pest reports error positions on character boundaries inside the input (precondition of '
